@@ -98,18 +98,39 @@ Section ImportSound.
     - destruct (better b (best Blk st)); auto.
   Qed.
 
+  Lemma import_known_mono st b st' i :
+    import Blk bid parent valid better st b = Some st' -> known Blk bid st i = true -> known Blk bid st' i = true.
+  Proof.
+    unfold import. destruct (known Blk bid st (bid b)); [intro H; inversion H; subst; auto|].
+    destruct (known Blk bid st (parent b) && valid b); [|discriminate].
+    intro H. inversion H; subst. unfold known. cbn [store existsb]. intro K. rewrite K. apply orb_true_r.
+  Qed.
+
+  Lemma import_all_known_mono : forall l st st' ok i,
+      import_all Blk bid parent valid better st l = (st', ok) -> known Blk bid st i = true -> known Blk bid st' i = true.
+  Proof.
+    induction l as [|b t IH]; intros st st' ok i H K; cbn [import_all] in H.
+    - inversion H; subst. auto.
+    - destruct (import Blk bid parent valid better st b) as [st1|] eqn:E.
+      + eapply IH; eauto. eapply import_known_mono; eauto.
+      + inversion H; subst. auto.
+  Qed.
+
+  (* every block that enters the store passed validation AND its parent is stored (in the final store) *)
   Theorem import_all_sound : forall l st st' ok,
       import_all Blk bid parent valid better st l = (st', ok) ->
-      (forall x, In x (store Blk st') -> In x (store Blk st) \/ (In x l /\ valid x = true)) /\
+      (forall x, In x (store Blk st') -> In x (store Blk st) \/
+                 (In x l /\ valid x = true /\ known Blk bid st' (parent x) = true)) /\
       (best Blk st' = best Blk st \/ (In (best Blk st') l /\ valid (best Blk st') = true)).
   Proof.
     induction l as [|b t IH]; intros st st' ok H; cbn [import_all] in H.
     - inversion H; subst. auto.
     - destruct (import Blk bid parent valid better st b) as [st1|] eqn:E.
       + destruct (import_sound _ _ _ E) as [S1 S2]. destruct (IH _ _ _ H) as [I1 I2]. split.
-        * intros x Hx. destruct (I1 x Hx) as [A|[A B]].
-          -- destruct (S1 x A) as [C|[-> [C _]]]; auto. right. split; auto. left; auto.
-          -- right. split; auto. right; auto.
+        * intros x Hx. destruct (I1 x Hx) as [A|[A [B C]]].
+          -- destruct (S1 x A) as [C|[-> [C D]]]; auto. right. split; [left; auto|]. split; auto.
+             eapply import_all_known_mono; eauto. eapply import_known_mono; eauto.
+          -- right. split; [right; auto|auto].
         * destruct I2 as [I2|[A B]].
           -- rewrite I2. destruct S2 as [S2|[-> V]]; auto. right. split; auto. left; auto.
           -- right. split; auto. right; auto.
